@@ -20,11 +20,17 @@ func (k *kase) liveShadow() []int {
 	return live
 }
 
-func (c *cfgGen) objOfKey(key int) int {
+// ownKeys: the upstreams the handler itself provisioned (for a handler with a dynamic source:
+// its static fallback upstreams; what the source returns is held by the loop iterations).
+func (c *cfgGen) ownKeys() []int {
 	if c.st.dyn {
-		return -1 // the handler itself holds no Host: its iterations do
+		return c.st.skeys
 	}
-	for i, kk := range c.st.keys {
+	return c.st.keys
+}
+
+func (c *cfgGen) objOfKey(key int) int {
+	for i, kk := range c.ownKeys() {
 		if kk == key {
 			return c.objs[i]
 		}
@@ -35,6 +41,18 @@ func (c *cfgGen) objOfKey(key int) int {
 // preservedClass: a loaded configuration's upstream is not (or no longer) the Host object the
 // pool holds for its key.  (Before fix d6561d4 this happened after a load that failed in
 // Provision before its upstreams were set up; that is now an ordinary violation.)
+// lastCallFailed: the source failed in the current loop iteration of request r.
+func (k *kase) lastCallFailed(r *reqSt) bool {
+	k.mu.Lock()
+	defer k.mu.Unlock()
+	for i := len(k.dynCalls) - 1; i >= 0; i-- {
+		if k.dynCalls[i].rid == r.id {
+			return k.dynCalls[i].failed
+		}
+	}
+	return false
+}
+
 func (k *kase) preservedClass() string { return "host-not-preserved" }
 
 func (k *kase) oracleStep(ev string) {
@@ -50,7 +68,7 @@ func (k *kase) oracleStep(ev string) {
 		if r.parked {
 			if o := k.reqObj(r); o >= 0 {
 				parked[o]++
-				if r.cfg.st.dyn {
+				if r.cfg.st.dyn && !k.lastCallFailed(r) {
 					// the iteration holds its dynamic upstreams in the pool until it returns: the
 					// Host the request counts on must be the pooled one (shared with everybody else)
 					h, refs, ok := reverseproxy.VerifHostsEntry(k.dial(r.at))
@@ -89,15 +107,15 @@ func (k *kase) oracleStep(ev string) {
 			if u.Available() != (wantHealthy && !wantFull) {
 				k.fail("available-disagrees", fmt.Sprintf("after %q: upstream %d Available()=%v, want healthy=%v full=%v", ev, i, u.Available(), wantHealthy, wantFull))
 			}
-			h, refs, ok := reverseproxy.VerifHostsEntry(k.dial(c.st.keys[i]))
+			h, refs, ok := reverseproxy.VerifHostsEntry(k.dial(c.ownKeys()[i]))
 			if !ok || refs < 1 || h != u.Host {
-				k.fail(k.preservedClass(), fmt.Sprintf("after %q: the loaded configuration uses key %d but the hosts pool has ok=%v refs=%d sameObject=%v", ev, c.st.keys[i], ok, refs, h == u.Host))
+				k.fail(k.preservedClass(), fmt.Sprintf("after %q: the loaded configuration uses key %d but the hosts pool has ok=%v refs=%d sameObject=%v", ev, c.ownKeys()[i], ok, refs, h == u.Host))
 			}
 		}
 	}
-	if ev == "L" && k.prev != nil && !k.cur.st.dyn && !k.prev.st.dyn {
+	if ev == "L" && k.prev != nil {
 		c := k.cur
-		for i, key := range c.st.keys {
+		for i, key := range c.ownKeys() {
 			if o := k.prev.objOfKey(key); o >= 0 && o != c.objs[i] {
 				k.fail(k.preservedClass(), fmt.Sprintf("reload kept key %d but the new configuration got Host object %d instead of %d", key, c.objs[i], o))
 			}
